@@ -147,9 +147,9 @@ ShareIn(x) == IF x = 0 THEN 0
               ELSE IF Op(x) \in {"share", "publish"} THEN x
               ELSE IF Op(x) \in RefUnaryOps THEN ShareIn(S1(x)) ELSE 0
 
-(* share(): what a subscriber that joins after EVERY earlier subscriber of the shared observable has left receives is not    *)
-(* fixed by the property (the pinned code keeps the old connection -- finding F13; reconnecting to the source, as a repair of *)
-(* F13 would, is just as good): such a subscription is not compared with the reference                                      *)
+(* share(): a subscriber that joins after EVERY earlier subscriber of the shared observable has left may be served by the   *)
+(* old connection (the pinned code keeps it -- finding F13) or by a connection of its own (what a repair of F13 would do):  *)
+(* both references are accepted for such a subscription, nothing else                                                       *)
 AfterAllLeft(m, h) ==
   LET sx == ShareIn(m.hroot[h])
       prev == {i \in 1..(h - 1) : m.hroot[i] > 0 /\ ShareIn(m.hroot[i]) = sx} IN
@@ -159,12 +159,13 @@ AfterAllLeft(m, h) ==
 RefCheck(m) ==
   \A p \in 1..m.np :
      LET h == GetI(m.ph, p) IN
-     (h > 0 /\ m.hroot[h] > 0 /\ Op(m.hroot[h]) # "group_by" /\ ~AfterAllLeft(m, h)) =>
+     (h > 0 /\ m.hroot[h] > 0 /\ Op(m.hroot[h]) # "group_by") =>
         LET got == GetS(m.plog, p)
             (* an unsubscribed subscription receives what was documented up to the unsubscription *)
             hi == IF GetI(m.hend, h) > 0 THEN m.hend[h] - 1 ELSE Len(m.g) IN
         \/ got = MsgsOf(Ref(m.hroot[h], m.g, m.h0[h], hi, {}))
         \/ \E var \in (SUBSET AmbiguousChoices) \ {{}} : got = MsgsOf(Ref(m.hroot[h], m.g, m.h0[h], hi, var))
+        \/ (AfterAllLeft(m, h) /\ got = MsgsOf(Ref(m.hroot[h], m.g, m.h0[h], hi, {"fresh"})))
 
 (* --- group_by (C20): one group per key in first-appearance order, every item to exactly its group --- *)
 TermMsgs(s) == IF s.term = "C" THEN <<<<"C", U>>>> ELSE IF s.term = "E" THEN <<<<"E", s.ev>>>> ELSE <<>>
